@@ -8,6 +8,7 @@ mod models;
 mod parallel;
 mod sched;
 mod stores;
+mod solverfuzz;
 
 fn main() {
     let args: Vec<String> = std::env::args().collect();
@@ -23,6 +24,7 @@ fn main() {
         "nodup_fringe_fuzz" => fringe::fuzz(&rest, true),
         "simple_fringe_fuzz" => fringe::fuzz(&rest, false),
         "par_abort_bounds" => parallel::replay_abort_bounds(&rest),
+        "solver_fuzz" => solverfuzz::fuzz(&rest),
         "cache_fuzz" => stores::cache_fuzz(&rest),
         "dominance_fuzz" => stores::dominance_fuzz(&rest),
         "par_abort_inflight" => sched::replay_abort_inflight(&rest),
